@@ -45,7 +45,8 @@ def lnotab_summary(T, f, dup_lines):
     code = code_instance(F, "xdis.codetype.code30", "Code3", "co_lnotab")
     import ast as _ast
     args, kw = [code], {"dup_lines": dup_lines}
-    if not any(isinstance(n, (_ast.Yield, _ast.YieldFrom)) for n in _ast.walk(f.node)):
+    from ..fold import is_generator
+    if not is_generator(f.node):
         # a bound finder may be a thin wrapper that returns the generator of another function with extra constant arguments
         sp0 = Spec(F)
         out0 = sp0.run(f, args, kw)
